@@ -342,10 +342,17 @@ class Decoder(wiring.Component):
     def elaborate(self, platform):
         m = Module()
 
-        ack_fanin   = 0
-        err_fanin   = 0
-        rty_fanin   = 0
-        stall_fanin = 0
+        ack_fanin   = []
+        err_fanin   = []
+        rty_fanin   = []
+        stall_fanin = []
+
+        def any_of(terms):
+            # OR pairwise: a linear chain over about a thousand subordinates is nested deeper than the
+            # recursion limit of the HDL front-end.
+            while len(terms) > 1:
+                terms = [a | b for a, b in zip(terms[0::2], terms[1::2])] + terms[len(terms) & ~1:]
+            return terms[0] if terms else 0
 
         with m.Switch(self.bus.adr):
             for sub_map, sub_name, (sub_pat, sub_ratio) in self.bus.memory_map.window_patterns():
@@ -372,21 +379,21 @@ class Decoder(wiring.Component):
                         sub_bus.cyc.eq(self.bus.cyc),
                         self.bus.dat_r.eq(sub_bus.dat_r),
                     ]
-                    ack_fanin |= sub_bus.ack
+                    ack_fanin.append(sub_bus.ack)
                     if hasattr(sub_bus, "err"):
-                        err_fanin |= sub_bus.err
+                        err_fanin.append(sub_bus.err)
                     if hasattr(sub_bus, "rty"):
-                        rty_fanin |= sub_bus.rty
+                        rty_fanin.append(sub_bus.rty)
                     if hasattr(sub_bus, "stall"):
-                        stall_fanin |= sub_bus.stall
+                        stall_fanin.append(sub_bus.stall)
 
-        m.d.comb += self.bus.ack.eq(ack_fanin)
+        m.d.comb += self.bus.ack.eq(any_of(ack_fanin))
         if hasattr(self.bus, "err"):
-            m.d.comb += self.bus.err.eq(err_fanin)
+            m.d.comb += self.bus.err.eq(any_of(err_fanin))
         if hasattr(self.bus, "rty"):
-            m.d.comb += self.bus.rty.eq(rty_fanin)
+            m.d.comb += self.bus.rty.eq(any_of(rty_fanin))
         if hasattr(self.bus, "stall"):
-            m.d.comb += self.bus.stall.eq(stall_fanin)
+            m.d.comb += self.bus.stall.eq(any_of(stall_fanin))
 
         return m
 
